@@ -939,6 +939,10 @@ def titleInert (t : Str) : Bool := t.all (fun c => c != cNul && c != cCr && c !=
 * `unit`    — `()` and `Option::None` (`Either::Right(())`): `<!>` when escaping.
 * `island c p ks`, `islandChildren ks` — `Island` / `IslandChildren` (html/islands.rs): tags and
               attributes written by hand around the view, `position` and `escape` passed through.
+* `resetPos` — prints nothing and sets `position = NextChild`: what a pending `<Suspense>` does in the
+              in-order stream after queueing its children (suspense_component.rs), so that the sibling
+              that follows gets no `<!>` whatever the children end with.  Correspondence-only (not
+              well-formed for the theorems: it is exactly where the marker discipline is given up).
 `Option::Some(v)`, `Either::{Left,Right}(v)`, `AnyView` print exactly `v` (no marker when
 `mark_branches = false`), so they have no constructor: the op decoders map them to `v`. -/
 
@@ -951,6 +955,7 @@ inductive VNode where
   | unit
   | island (component props : Str) (kids : List VNode)
   | islandChildren (kids : List VNode)
+  | resetPos
   deriving Repr
 
 def tIsland : Str := ['l','e','p','t','o','s','-','i','s','l','a','n','d']
@@ -978,6 +983,7 @@ def vPos (escape : Bool) (pos : Pos) : VNode → Pos
   | .unit => if escape then .nextChild else pos
   | .island _ _ ks => vKidsPos escape pos ks          -- `position` and `escape` are passed through
   | .islandChildren ks => vKidsPos escape pos ks
+  | .resetPos => .nextChild
 def vKidsPos (escape : Bool) (pos : Pos) : List VNode → Pos
   | [] => pos
   | n :: ns => vKidsPos escape (vPos escape pos n) ns
@@ -985,10 +991,15 @@ end
 
 def markerIf (b : Bool) : Str := if b then ['<', '!', '>'] else []
 
+/-- do primitive children (`char`, numbers, …; view/primitives.rs) honour the `escape` flag?  `false`: the
+code as it is (`write!(buf, "{}", self)` whatever the flag: F-C06-7); `true`: after hooks/fix-c06-5.patch
+(`encode_text` of the Display text when escaping).  Flip when the fix is applied. -/
+def primEscaped : Bool := false
+
 mutual
 def vHtml (escape : Bool) (pos : Pos) : VNode → Str
   | .text s => textHtml escape pos s
-  | .prim s => markerIf (pos = .afterText) ++ s
+  | .prim s => markerIf (pos = .afterText) ++ (if escape && primEscaped then escapeText s else s)
   | .elem tag attrs kids =>
     '<' :: tag ++ attrsHtml attrs ++ '>' ::
       (if isVoid tag then []
@@ -1001,6 +1012,7 @@ def vHtml (escape : Bool) (pos : Pos) : VNode → Str
   | .island c p ks => islandOpen c p ++ vKidsHtml escape pos ks ++ '<' :: '/' :: tIsland ++ ['>']
   | .islandChildren ks =>
     '<' :: tIslandChildren ++ '>' :: vKidsHtml escape pos ks ++ '<' :: '/' :: tIslandChildren ++ ['>']
+  | .resetPos => []
 def vKidsHtml (escape : Bool) (pos : Pos) : List VNode → Str
   | [] => []
   | n :: ns => vHtml escape pos n ++ vKidsHtml escape (vPos escape pos n) ns
@@ -1020,6 +1032,7 @@ def vRawText : VNode → Str
   | .unit => []
   | .island .. => []
   | .islandChildren _ => []
+  | .resetPos => []
 def vRawTextKids : List VNode → Str
   | [] => []
   | n :: ns => vRawText n ++ vRawTextKids ns
@@ -1036,6 +1049,7 @@ def vHasText : VNode → Bool
   | .unit => false
   | .island .. => false
   | .islandChildren _ => false
+  | .resetPos => false
 def vHasTextKids : List VNode → Bool
   | [] => false
   | n :: ns => vHasText n || vHasTextKids ns
@@ -1059,6 +1073,7 @@ def vStruct (pos : Pos) : VNode → List Tree
   | .unit => [.comment []]
   | .island c p ks => [.elem tIsland (islandAttrs c p) (vStructKids pos ks)]
   | .islandChildren ks => [.elem tIslandChildren [] (vStructKids pos ks)]
+  | .resetPos => []
 def vStructKids (pos : Pos) : List VNode → List Tree
   | [] => []
   | n :: ns => vStruct pos n ++ vStructKids (vPos true pos n) ns
@@ -1106,6 +1121,7 @@ def vStrings : VNode → List Str
   | .unit => []
   | .island _ p ks => p :: vKidsStrings ks
   | .islandChildren ks => vKidsStrings ks
+  | .resetPos => []
 def vKidsStrings : List VNode → List Str
   | [] => []
   | n :: ns => vStrings n ++ vKidsStrings ns
@@ -1198,6 +1214,32 @@ def resolve (final : Bool) (msgs : Str) : WNode → List VNode
 def resolveKids (final : Bool) (msgs : Str) : List WNode → List VNode
   | [] => []
   | n :: ns => resolve final msgs n ++ resolveKids final msgs ns
+end
+
+mutual
+/-- the settled document as the **in-order stream** prints it: like `resolve true`, but a `<Suspense>` /
+`<Await>` (always pending at the first poll here) leaves `position = NextChild` behind its children -/
+def resolveInOrder (msgs : Str) : WNode → List VNode
+  | .leaf n => [n]
+  | .elem t a ks => [.elem t a (resolveInOrderKids msgs ks)]
+  | .seq ks => [.seq (resolveInOrderKids msgs ks)]
+  | .vec ks => [.vec (resolveInOrderKids msgs ks)]
+  | .show c ks fb => if c then [.seq (resolveInOrderKids msgs ks)] else [.seq (resolveInOrderKids msgs fb)]
+  | .boundary ks fb =>
+    match errsOfKids ks with
+    | [] => [.seq (resolveInOrderKids msgs ks)]
+    | es => [.seq (resolveInOrderKids (joinMsgs es) fb)]
+  | .okStr s => [.text s]
+  | .err _ => [.unit]
+  | .errMsgs => [.text msgs]
+  | .forEach fam rows =>
+    [.vec (rows.map fun s => if fam = 0 then .text s else .elem tLi [] [.text s])]
+  | .suspense ks _ => [.seq (resolveInOrderKids msgs ks), .resetPos]
+  | .suspend ks => [.seq (resolveInOrderKids msgs ks)]
+  | .await d => [.elem tB [] [.text d], .text d, .resetPos]
+def resolveInOrderKids (msgs : Str) : List WNode → List VNode
+  | [] => []
+  | n :: ns => resolveInOrder msgs n ++ resolveInOrderKids msgs ns
 end
 
 /-- push a text node in front of a normalised list -/
